@@ -341,6 +341,9 @@ func c02PointLog(c *jCrashCase) ([]c02Hit, error) {
 		return nil, fmt.Errorf("point-log run failed: %v: %s", err, out)
 	}
 	lb, err := os.ReadFile(logf)
+	if os.IsNotExist(err) {
+		return nil, nil // the history passed no instrumented step (e.g. it inserts nothing)
+	}
 	if err != nil {
 		return nil, err
 	}
